@@ -91,8 +91,9 @@ ASSUMPTIONS = [
     'tracemalloc peak (named in the design) is not measured: with BytesIO streams every allocation proportional to a '
     'corrupted count is built by Python-level loops (construct Array / list appends) that the line budget bounds, and '
     'single large allocations can only come from read(n), which the request-size bound covers',
-    'iter_versions is not part of the battery (the property statement lists headers, sections, segments, symbol '
-    'counts, dynamic tags and notes; the design battery has num_versions only)',
+    'iter_versions is run under the same budgets but only counted (extra.iter_versions.<outcome>), never reported: the '
+    'property statement lists headers, sections, segments, symbol counts, dynamic tags and notes, and the design '
+    'battery has num_versions only',
     'atheris (optional, /verif/.deps) fuzzes the constructor only; inputs it saves decide nothing until replayed through '
     'run_case in the plain interpreter; absent atheris => counter atheris.skipped',
 ]
@@ -186,6 +187,10 @@ class Battery:
 
     STEPS = ('header', 'num_sections', 'iter_sections', 'num_segments', 'iter_segments', 'num_symbols',
              'hash.get_number_of_symbols', 'iter_tags', 'dynseg.num_symbols', 'iter_notes', 'num_versions')
+    # Steps that are run under the same budgets but only COUNTED (counters extra.<step>.<outcome>), never reported:
+    # the property statement does not list version entries among the enumerations, although its anchors name the
+    # iter_versions loop (gnuversions.py:96) and its quantifier names version records.
+    EXTRA_STEPS = ('extra.iter_versions',)
 
     def __init__(self, ef, stream, nbytes, limit=None):
         self.ef, self.stream, self.nbytes = ef, stream, nbytes
@@ -261,7 +266,21 @@ class Battery:
         for o in segs:
             if hasattr(o, 'num_symbols'):
                 self._run('dynseg.num_symbols', o.num_symbols)
+        # observed but not judged (see EXTRA_STEPS)
+        for s in secs:
+            if hasattr(s, 'iter_versions'):
+                self._run('extra.iter_versions', lambda: self._drain_versions(s))
         return len(secs), len(segs)
+
+    @staticmethod
+    def _drain_versions(sec):
+        it = sec.iter_versions()
+        try:
+            for _version, aux_iter in it:
+                for _aux in aux_iter:
+                    pass
+        finally:
+            it.close()
 
 
 # ---------------------------------------------------------------------------
@@ -791,6 +810,9 @@ def run_case(ctx, case):
                 ctx.fail('battery.bytes-read|step=%s' % step,
                          'battery step %s read %d bytes in total from a %d-byte input (bound %d + %d*max(len,%d) = %d)'
                          % (step, got, len(data), BYTE_A, BYTE_B, SIZE_FLOOR, bb), case)
+        for step in Battery.EXTRA_STEPS:
+            if step in b.work:
+                ctx.count('%s.%s' % (step, b.work[step][4]))
         for step, names in b.excs.items():
             for nm in names:
                 ctx.count('battery.exc.%s' % nm)
@@ -969,9 +991,9 @@ def _sharded(en, tier, shard, nshards):
 
 def build_case(ch, tier):
     k = ch.int(0, 19)
-    if k == 0:
+    if k <= 1:
         return {'src': None, 'muts': [], 'family': 'random', 'data': ch.bytes(0, 200)}
-    if k <= 2:
+    if k <= 5:
         cls, le = ch.choice([1, 2]), ch.choice([1, 2])
         body = ch.bytes(0, 300)
         if ch.bool():
